@@ -24,6 +24,8 @@ Record Laws (E : env) : Type := {
   L_dl1_mul : forall s a, dl1 (g1_mul (PR E) s a) = fmul (SO E) s (dl1 a);
   L_g1_eqb : forall a b, g1_eqb (PR E) a b = true <-> a = b;
   L_dl2_inj : forall a b, dl2 a = dl2 b -> a = b;
+  L_dl2_zero : dl2 (g2_zero (PR E)) = f0 (SO E);
+  L_g2_eqb : forall a b, g2_eqb (PR E) a b = true <-> a = b;
   L_dl2_gen : forall s, dl2 (g2_mul_gen (PR E) s) = s;
   L_dl2_add : forall a b, dl2 (g2_add (PR E) a b) = fadd (SO E) (dl2 a) (dl2 b);
   L_pair : forall a x b y, pairing_eq (PR E) a x b y = true <->
